@@ -210,8 +210,16 @@ def check_preagg(case, ctx):
 
 
 def csv_strategy(tier):
-    return preagg_strategy(tier).filter(lambda c: c["spec"]["inputs"][0].get("ens") is None).map(
-        lambda c: dict(c, kind="text"))
+    base = preagg_strategy(tier).filter(lambda c: c["spec"]["inputs"][0].get("ens") is None)
+
+    @st.composite
+    def s(draw):
+        c = draw(base)
+        # -Tagg and -agg are separate options: without -Tagg the window statistic is the mean whatever -agg says,
+        # and -agg only chooses how the slice's errors are combined
+        return dict(c, kind="text", tagg_given=draw(st.sampled_from([True, True, False])),
+                    score_agg=draw(st.sampled_from([None, None, "max", "median", "min", "sum", "std", "range"])))
+    return s()
 
 
 _counter = [0]
@@ -220,6 +228,10 @@ _counter = [0]
 def check_csv(case, ctx):
     from .. import drive, mat
     spec, h, tx, agg = case["spec"], case["h"], case["tx"], case["agg"]
+    tagg_given = case.get("tagg_given", True)
+    score_agg = case.get("score_agg")
+    if not tagg_given:
+        agg = "mean"
     spec_agg = model.preaggregate_spec(spec, h, tx, agg)
     ds = model.DS(spec_agg)
     if ds.empty:
@@ -229,8 +241,12 @@ def check_csv(case, ctx):
     os.makedirs(d)
     paths, _ = mat.write_files(spec, d, "netcdf" if _counter[0] % 3 == 0 else "text")
     axis = (case.get("axes") or ["no"])[0]
-    r = drive.run(paths + ["-m", "mae", "-x", axis, "-type", "csv", "-T", str(h), "-Tagg", agg, "-Tx", tx])
+    extra = (["-Tagg", agg] if tagg_given else []) + (["-agg", score_agg] if score_agg else [])
+    if _counter[0] % 2:
+        extra = extra[2:] + extra[:2]
+    r = drive.run(paths + ["-m", "mae", "-x", axis, "-type", "csv", "-T", str(h)] + extra + ["-Tx", tx])
     ctx.evals += 1
+    ctx.label("csv/%s%s" % ("-Tagg given" if tagg_given else "no -Tagg", " with -agg" if score_agg else ""))
     if r.exc is not None:
         ctx.fail("C15/csv/exc/" + r.exc_key, case, r.tb)
         return
@@ -247,10 +263,17 @@ def check_csv(case, ctx):
     for k, row in enumerate(rows):
         for i in range(n_in):
             cs = ds.cases([("obs",), ("fcst",)], i, axis, k)
-            e = math.fsum(abs(o - f) for o, f in cs) / len(cs) if cs else float("nan")
+            if score_agg:
+                e = model.aggregate(score_agg, [abs(o - f) for o, f in cs]) if cs else float("nan")
+                if e is None:
+                    e = float("nan")
+            else:
+                e = math.fsum(abs(o - f) for o, f in cs) / len(cs) if cs else float("nan")
             g = float(row[len(row) - n_in + i])
+            if score_agg in ("std", "range") and abs(e) < 1e-4:
+                continue            # a spread of nearly equal float32 window values is rounding noise
             if not cmpx.printed_ok(g, e, 6, rel=1e-5):
-                ctx.fail("C15/csv/mae", case, "-T %d -Tagg %s -Tx %s row %d input %d: %r, model %r" % (h, agg, tx, k, i, g, e))
+                ctx.fail("C15/csv/mae", case, "-T %d %s -Tx %s row %d input %d: %r, model %r" % (h, " ".join(extra), tx, k, i, g, e))
 
 
 def campaigns(tier):
